@@ -672,3 +672,14 @@ func (b *Body) findCalls(pred eventPred, withLits bool) []*ast.CallExpr {
 	})
 	return out
 }
+
+// BodiesOf returns the body of f followed by the bodies of its function literals (source order).
+func (p *Prog) BodiesOf(f *FuncInfo) []*Body {
+	out := []*Body{p.BodyOf(f)}
+	for _, l := range f.Lits {
+		out = append(out, p.LitBody(f, l))
+	}
+	return out
+}
+
+func (b *Body) Pos() token.Pos { return b.Block.Pos() }
